@@ -94,6 +94,8 @@ def main():
         for pid, r in res.items():
             if r["rc"]:
                 print(pid, r["rc"], r["first"])
+    elif cmd == "preserving":
+        sys.exit(preserving())
     elif cmd == "all":
         root = os.path.join(HERE, "seeded")
         results = {}
@@ -113,6 +115,28 @@ def main():
             print("%-14s target=%s rc=%s caught_by=%s undecided=%s" % (name, target, results[name]["target_rc"], caught, undec))
         with open(os.path.join(root, "RESULTS.json"), "w") as fh:
             json.dump(results, fh, indent=1, sort_keys=True)
+
+
+def preserving():
+    """behaviour-preserving refactorings (sub-agent written, equivalence demonstrated by their equiv.py): no check may answer 1"""
+    root = os.path.join(HERE, "preserving")
+    names = [n for n in sorted(os.listdir(root)) if os.path.isfile(os.path.join(root, n, "patch.diff"))]
+    import multiprocessing
+    with multiprocessing.Pool(16) as pool:
+        allres = dict(zip(names, pool.map(check, [os.path.join(root, n) for n in names])))
+    results, bad = {}, 0
+    for name in names:
+        res = allres[name]
+        alarms = sorted(p for p, r in res.items() if r["rc"] == 1)
+        undec = sorted(p for p, r in res.items() if r["rc"] == 2)
+        bad += len(alarms)
+        results[name] = {"false_alarms": alarms, "undecided_in": undec, "reports": {p: res[p]["first"] for p in alarms + undec}}
+        print("%-8s %s alarms=%s undecided=%s" % (name, "FALSE-ALARM" if alarms else "ok", alarms, undec))
+        for p in alarms:
+            print("     ", p, res[p]["first"])
+    with open(os.path.join(root, "RESULTS.json"), "w") as fh:
+        json.dump(results, fh, indent=1, sort_keys=True)
+    return 1 if bad else 0
 
 
 if __name__ == "__main__":
